@@ -558,6 +558,8 @@ def failing_gr(c, parsed=None):
     """does the REAL code contradict the property statement on this input?  ('skip', why) | (key, text) | None"""
     if not ctype_valid(c) or not ctype_matches(c):
         return None                       # outside the statement (error branch / mismatched option)
+    if c["cond"]["kind"] == "tensor" and not c["cond"].get("symmetric"):
+        return None                       # the property quantifies over symmetric tensors (general ones: Impl correspondence only)
     if parsed is None:
         try:
             o = common.drive([op_line(c)])[0]
